@@ -198,6 +198,7 @@ def run(ctx):
         subs = [blk for blk in d.blocks if blk.term.kind == 'call' and not blk.cleanup and any(n.endswith('::fetch_sub') for n in blk.term.callee_names())]
         ok = len(subs) == 1 and dan.resolve_operand(subs[0].term.args[1]) == '1_usize' and not in_cycle(dan, subs[0].idx)
         ctx.ob('R03.3', 'Drop for the users guard performs users -= 1 exactly once', ok, ctx.where(d), '%d fetch_sub calls' % len(subs), construct='users-guard-closure')
+    users_guard_drop_unconditional(ctx, r, 'R03.3')
     check_unready_drop(ctx, r, 'R03.3')
 
     # ---- R03.10 the abandonment path honours a shrink that happened meanwhile ----------------------------------
